@@ -239,6 +239,13 @@ def body_equalize(case):
             labs.append("nt:identical-nonuniform")
         return labs
     check(hi > lo, "disjoint:accepted", f"domains do not overlap (max of minima {lo} >= min of maxima {hi}) but a result was returned")
+    # whole-number spectra (counts) as int64 arrays are interpolated like the same numbers as floats (no truncation of in-between values)
+    whole = [np.round(a * 7.0) for a in arrs]
+    with calling("equalize_domains (whole-number arrays as int64 / float64)"):
+        _, ai = dreye.equalize_domains(doms, [w.astype(np.int64) for w in whole], axes=case["axes"])
+        _, af = dreye.equalize_domains(doms, [w.copy() for w in whole], axes=case["axes"])
+    check(len(ai) == len(af) and all(np.asarray(x).shape == np.asarray(y).shape and np.all(np.abs(np.asarray(x, dtype=float) - np.asarray(y, dtype=float)) <= 1e-12 * (1.0 + np.abs(np.asarray(y, dtype=float)))) for x, y in zip(ai, af)),
+          "integer-arrays-differ", "whole-number arrays handed over as int64 are interpolated differently from the same numbers as floats")
     if hi - lo < step0 * (1 - 1e-9):
         # the statement fixes only the disjoint case; a returned result must still be correct
         pass
